@@ -487,8 +487,22 @@ func TestC13Nul(t *testing.T) {
 	col := evid.New("C13", "nul", "")
 	defer col.Flush()
 	valid := []string{"return true;", "x = 1; return x;", "if (a) { return 1; } return 2;", "function f() { return 1; } return f();"}
-	junk := []string{" @@@", " return (", " }", " 3 += 4;", "\x00", " local q;", " x = \"abc"}
+	// (also nothing at all after the NUL, or only white space: the NUL itself
+	// is the illegal character, wherever it stands - the very end included)
+	junk := []string{" @@@", " return (", " }", " 3 += 4;", "\x00", " local q;", " x = \"abc", "", " ", "\n", "\t\n ", "// c", " return 1;"}
 	for _, v := range valid {
+		// a NUL at every byte offset of the script, nothing else changed
+		for at := 0; at <= len(v); at++ {
+			if at > 0 && at < len(v) && (v[at-1] == '"' || v[at] == '"') {
+				continue
+			}
+			c := &RejectCase{Prop: "C13", Kind: "nul", Script: v[:at] + "\x00" + v[at:], Why: "a NUL character is illegal wherever it stands"}
+			if err := runReject(c); err != nil {
+				c.Msg = err.Error()
+				violation(t, "C13", c, "%v", err)
+			}
+			col.Case(c.Script, true, func() interface{} { return map[string]string{"script": fmt.Sprintf("%q", c.Script)} })
+		}
 		for _, j := range junk {
 			for _, sep := range []string{"\x00", "\n\x00", " \x00 "} {
 				c := &RejectCase{Prop: "C13", Kind: "nul", Script: v + sep + j, Why: "text after a NUL character is invalid (and must not be dropped silently)"}
